@@ -82,7 +82,7 @@ def mono(ctx, rep, rule):
     def order_const(t):
         # Ordering::Less = -1, Equal = 0, Greater = 1 (promoted constants or aggregates)
         for s in flow.subterms(t):
-            if s[0] == "const" and isinstance(s[1], int) and not isinstance(s[1], bool) and s[1] in (-1, 0, 1, 255):
+            if s[0] == "const" and isinstance(s[1], int) and not isinstance(s[1], bool) and s[1] in (-1, 0, 1, 255):  # 255: i8 -1 as raw bits
                 return -1 if s[1] == 255 else s[1]
             if s[0] == "agg" and s[1] == "std::cmp::Ordering":
                 return {"Less": -1, "Equal": 0, "Greater": 1}[s[2]]
